@@ -55,6 +55,7 @@ class _VSelector(selectors.BaseSelector):
 class _Clock:
     def __init__(self):
         self.t = 1000.0
+        self.wall = 0.0       # offset of the WALL clock (time.time) against the loop's monotonic clock: it may be stepped
 
 
 class _TimeShim:
@@ -64,10 +65,10 @@ class _TimeShim:
         self._c = clock
 
     def time(self):
-        return EPOCH_S + self._c.t
+        return EPOCH_S + self._c.t + self._c.wall
 
     def time_ns(self):
-        return int((EPOCH_S + self._c.t) * 1e9)
+        return int((EPOCH_S + self._c.t + self._c.wall) * 1e9)
 
     def monotonic(self):
         return self._c.t
